@@ -51,9 +51,26 @@ pub fn alphabet() -> Vec<Call> {
         c("import_off", "#import \"m.typ\": c, b, a", 80, 2, false),
         c("doc", DOC, 40, 2, false),
         c("doc_reorder", DOC, 120, 3, true),
+        // same shape, different answers of the table predicate / of the chain width estimate
+        c("table2", "#table(columns: 2, [a], [b], [c], [d], [e], [f])", 80, 2, false),
+        c("table3", "#table(columns: 3, [a], [b], [c], [d], [e], [f])", 80, 2, false),
+        c("chain_short", "#let v = aa.bb.cc(d)", 40, 2, false),
+        c("chain_long", "#let v = aaaaaaaaaaaaaaaa.bbbbbbbbbbbbbbbbbbbb.cccccccccccccccccccc(d)", 40, 2, false),
+        // resource extremes: nesting far deeper than any fixture, an erroneous text of the same depth
+        c("deep", deep_text(), 80, 2, false),
         Call { name: "range_inner", text: DOC, width: 80, tab: 2, reorder: false, range: Some((40, 47)) },
         Call { name: "range_all", text: DOC, width: 20, tab: 2, reorder: false, range: Some((0, 1000)) },
     ]
+}
+
+fn deep_text() -> &'static str {
+    static T: std::sync::OnceLock<String> = std::sync::OnceLock::new();
+    // a pyramid: 300 levels of calls, every level with 300 sibling arguments before the nested
+    // call, so that whatever depth a resource limit sits at, hundreds of nodes hit it
+    T.get_or_init(|| {
+        let level = format!("f({}", "1, ".repeat(300));
+        format!("#{}1{} and #f( 1,2 )", level.repeat(300), ")".repeat(300))
+    })
 }
 
 fn shared_source(text: &'static str) -> Arc<Source> {
@@ -458,7 +475,7 @@ pub fn worker_sched(args: &[String]) -> i32 {
     let budget: u64 = args[1].parse().unwrap();
     let reference: Vec<String> = serde_json::from_str(&std::fs::read_to_string(&args[2]).unwrap()).unwrap();
     let mut out = vec![];
-    let n_sets = args[3..].len().max(1) as u64;
+    let worker_deadline = Instant::now() + Duration::from_secs(budget);
     for set in &args[3..] {
         let programs: Vec<Vec<usize>> = set.split(';').map(|p| p.split(',').filter(|x| !x.is_empty()).map(|x| x.parse().unwrap()).collect()).collect();
         // determinism: the default schedule twice, and one deviating schedule twice, must agree point for point
@@ -478,7 +495,7 @@ pub fn worker_sched(args: &[String]) -> i32 {
             blocked_events: 0,
             outcomes: HashSet::new(),
             failures: vec![],
-            deadline: Instant::now() + Duration::from_millis(budget * 1000 / n_sets),
+            deadline: worker_deadline,
             truncated: false,
         };
         if let Err(e) = ex.explore(vec![]) {
@@ -531,7 +548,8 @@ pub fn run(tier: &str, seed: u64) -> i32 {
         reference.push(outs[0].clone());
     }
     states += n as u64;
-    let ref_dir = std::path::Path::new("/verif/target/c17");
+    let ref_dir = std::env::temp_dir().join("tyv-c17");
+    let ref_dir = ref_dir.as_path();
     let _ = std::fs::create_dir_all(ref_dir);
     let ref_path = ref_dir.join(format!("ref-{}.json", std::process::id()));
     std::fs::write(&ref_path, serde_json::to_string(&reference).unwrap()).unwrap();
@@ -556,7 +574,7 @@ pub fn run(tier: &str, seed: u64) -> i32 {
         cur = next;
     }
     // quick: all histories of length <= 2 in all modes, length 3 over the colliding half of the alphabet; thorough: all
-    let colliding: Vec<usize> = (0..n).filter(|&i| !matches!(a[i].name, "doc_reorder" | "import_off" | "flat_w0" | "range_all")).collect();
+    let colliding: Vec<usize> = (0..n).filter(|&i| !matches!(a[i].name, "doc_reorder" | "import_off" | "flat_w0" | "range_all" | "comment" | "chain_short" | "import_on")).collect();
     let histories: Vec<Vec<usize>> = histories.into_iter().filter(|h| thorough || h.len() <= 2 || h.iter().all(|i| colliding.contains(i))).collect();
     let jobs: Vec<(usize, Vec<usize>)> = (0..modes).flat_map(|m| histories.iter().map(move |h| (m, h.clone()))).collect();
     let next_job = AtomicUsize::new(0);
@@ -619,19 +637,30 @@ pub fn run(tier: &str, seed: u64) -> i32 {
 
     // ---- 3. schedules
     let budget_s: u64 = std::env::var("VERIF_WALL_CAP_S").ok().and_then(|s| s.parse().ok()).unwrap_or(if thorough { 30 * 60 } else { 35 });
-    let small: Vec<usize> = (0..n).filter(|&i| a[i].text.len() < 60).collect();
+    let small: Vec<usize> = (0..n).filter(|&i| a[i].text.len() < 75).collect();
     let mut sets: Vec<(usize, String)> = vec![]; // (bound, programs)
-    // 2 threads x 1 call: all ordered pairs over the whole alphabet, bound 2 (thorough 3)
+    // 2 threads x 1 call: all unordered pairs over the whole alphabet; the preemption bound depends
+    // on the number of scheduling points (a deep or long document has hundreds of them)
     for i in 0..n {
         for j in i..n {
-            sets.push((if thorough { 4 } else { 3 }, format!("{i};{j}")));
+            if a[i].text.len() > 2000 || a[j].text.len() > 2000 {
+                continue; // the pyramid has ~10^5 scheduling points; it takes part in the histories only
+            }
+            let big = !small.contains(&i) || !small.contains(&j);
+            let bound = match (big, thorough) {
+                (false, false) => 2,
+                (false, true) => 3,
+                (true, false) => 1,
+                (true, true) => 2,
+            };
+            sets.push((bound, format!("{i};{j}")));
         }
     }
     // 2 threads x 2 calls over the small colliding texts, bound 1 (thorough 2)
     for &i in &small {
         for &j in &small {
             if i < j {
-                sets.push((if thorough { 3 } else { 2 }, format!("{i},{j};{j},{i}")));
+                sets.push((if thorough { 2 } else { 1 }, format!("{i},{j};{j},{i}")));
             }
         }
     }
@@ -639,8 +668,8 @@ pub fn run(tier: &str, seed: u64) -> i32 {
     for &i in &small {
         for &j in &small {
             for &k in &small {
-                if i <= j && j <= k && (thorough || (i + j + k) % 3 == 0) {
-                    sets.push((if thorough { 3 } else { 2 }, format!("{i};{j};{k}")));
+                if i <= j && j <= k && (thorough || (i + j + k) % 5 == 0) {
+                    sets.push((if thorough { 2 } else { 1 }, format!("{i};{j};{k}")));
                 }
             }
         }
@@ -666,7 +695,7 @@ pub fn run(tier: &str, seed: u64) -> i32 {
                     if progs.is_empty() {
                         continue;
                     }
-                    let mut args = vec!["c17-sched".to_string(), b.to_string(), (budget_s / 2).max(5).to_string(), ref_path.display().to_string()];
+                    let mut args = vec!["c17-sched".to_string(), b.to_string(), budget_s.to_string(), ref_path.display().to_string()];
                     args.extend(progs);
                     match sub(&args) {
                         Ok(v) => sched_out.lock().unwrap().extend(v.as_array().cloned().unwrap_or_default()),
@@ -720,7 +749,7 @@ pub fn run(tier: &str, seed: u64) -> i32 {
 
     // static census (assumption, not a verdict)
     let census = std::process::Command::new("grep")
-        .args(["-rnE", r"^\s*(pub(\([a-z]+\))?\s+)?static\s|thread_local!|unsafe\s*(\{|fn|impl)|Mutex<|RwLock<|Atomic[A-Z]|RefCell<|OnceLock<|LazyLock<|OnceCell<", "/repo/crates/typstyle-core/src", "--include=*.rs", "-l"])
+        .args(["-rnE", r"^\s*(pub(\([a-z]+\))?\s+)?static\s|thread_local!|unsafe\s*(\{|fn|impl)|Mutex<|RwLock<|Atomic[A-Z]|RefCell<|OnceLock<|LazyLock<|OnceCell<", &format!("{}/crates/typstyle-core/src", std::env::var("VERIF_REPO").unwrap_or_else(|_| "/repo".into())), "--include=*.rs", "-l"])
         .output()
         .map(|o| String::from_utf8_lossy(&o.stdout).lines().filter(|l| !l.ends_with("verif_hooks.rs")).map(|s| s.to_string()).collect::<Vec<_>>())
         .unwrap_or_default();
@@ -751,4 +780,59 @@ pub fn run(tier: &str, seed: u64) -> i32 {
     cov.extra.insert("max_distinct_outcomes_per_program_set".into(), json!(max_outcomes));
     let out = Outcome { property: "C17".into(), tier: tier.into(), seed, coverage: cov, assumptions, failures, wall_s: start.elapsed().as_secs_f64() };
     report::finish(out, &|_| false)
+}
+
+/// `./check replay <file>` for C17: re-run the recorded history or schedule.
+pub fn replay(v: &Value, path: &str) -> i32 {
+    let a = alphabet();
+    let reference: Vec<String> = (0..a.len())
+        .map(|i| sub(&["c17-one".into(), i.to_string()]).ok().and_then(|v| v[0].as_str().map(|s| s.to_string())).unwrap_or_default())
+        .collect();
+    let mut bad = false;
+    if let Some(h) = v["extra"]["history"].as_array() {
+        let calls: Vec<usize> = h.iter().map(|x| x.as_u64().unwrap_or(0) as usize).collect();
+        let mode = v["extra"]["mode"].as_u64().unwrap_or(0);
+        let hs = calls.iter().map(|x| x.to_string()).collect::<Vec<_>>().join(",");
+        println!("replay C17 history {:?} mode {mode}", calls.iter().map(|&i| a[i].name).collect::<Vec<_>>());
+        match sub(&["c17-hist".into(), mode.to_string(), hs]) {
+            Ok(r) => {
+                for (k, &ci) in calls.iter().enumerate() {
+                    if r[k].as_str() != Some(reference[ci].as_str()) {
+                        println!("FAIL call #{k} ({}) returned {} but alone it returns {}", a[ci].name, esc(r[k].as_str().unwrap_or("")), esc(&reference[ci]));
+                        bad = true;
+                    }
+                }
+            }
+            Err(e) => {
+                eprintln!("MACHINERY: {e}");
+                return 2;
+            }
+        }
+    } else if let Some(p) = v["extra"]["programs"].as_str() {
+        let programs: Vec<Vec<usize>> = p.split(';').map(|q| q.split(',').filter(|x| !x.is_empty()).map(|x| x.parse().unwrap()).collect()).collect();
+        let schedule: Vec<usize> = v["extra"]["schedule"].as_array().map(|s| s.iter().map(|x| x.as_u64().unwrap_or(0) as usize).collect()).unwrap_or_default();
+        println!("replay C17 schedule {schedule:?} of programs {p}");
+        let x = run_schedule(&programs, &schedule);
+        if x.diverged {
+            eprintln!("MACHINERY: the recorded schedule no longer fits the code (divergence)");
+            return 2;
+        }
+        for (t, prog) in programs.iter().enumerate() {
+            for (k, &ci) in prog.iter().enumerate() {
+                if x.results[t].get(k) != Some(&reference[ci]) {
+                    println!("FAIL thread {t} call #{k} ({}) returned {} but alone it returns {}", a[ci].name, esc(x.results[t].get(k).map(|s| s.as_str()).unwrap_or("")), esc(&reference[ci]));
+                    bad = true;
+                }
+            }
+        }
+    } else {
+        println!("replay C17: {}", v["detail"].as_str().unwrap_or(""));
+    }
+    if bad {
+        println!("VIOLATION property=C17 replay={path}");
+        1
+    } else {
+        println!("PASS");
+        0
+    }
 }
